@@ -110,7 +110,7 @@ def r113_predicates(ctx, res, fname, want_same, fi, direct):
     for (ta, tb), r in sorted(direct.items()):
         same = KIND[ta][1] == KIND[tb][1]
         want = want_same if same else ("orth" if want_same == "par" else "par")
-        got = _classify_predicate(r.value, fi, ta, tb)
+        got = _classify_predicate(_resolve_local(fi, r.value), fi, ta, tb)
         lab = "%s(%s, %s)" % (fname, ta, tb)
         if got is None:
             raise AnalysisError("%s: `%s` is not a recognised vector predicate on the operands' direction vectors"
@@ -162,26 +162,137 @@ def _interval(ctx, fi, e: ast.AST, acute_ok: bool) -> Optional[Tuple[float, floa
     return None
 
 
+def _acute_paths(fi):
+    """symbolic execution of acute() over the linear domain  value = k*p + c : [(conds, (k, c))] for every
+    return, conds = [(op, thr)] meaning `p op thr` (op in '>' '>=' '<' '<='); None if the shape is not linear/branching"""
+    p = fi.params[0]
+    out = []
+
+    class Unrec(Exception):
+        pass
+
+    def lin(e, env):
+        c = const_num(e)
+        if c is not None:
+            return (0.0, float(c))
+        if isinstance(e, ast.Name):
+            if e.id in env:
+                return env[e.id]
+            raise Unrec()
+        if isinstance(e, ast.UnaryOp) and isinstance(e.op, ast.USub):
+            k, c = lin(e.operand, env)
+            return (-k, -c)
+        if isinstance(e, ast.BinOp) and isinstance(e.op, (ast.Add, ast.Sub)):
+            (k1, c1), (k2, c2) = lin(e.left, env), lin(e.right, env)
+            sg = 1 if isinstance(e.op, ast.Add) else -1
+            return (k1 + sg * k2, c1 + sg * c2)
+        if isinstance(e, ast.BinOp) and isinstance(e.op, ast.Mult):
+            (k1, c1), (k2, c2) = lin(e.left, env), lin(e.right, env)
+            if k1 == 0:
+                return (c1 * k2, c1 * c2)
+            if k2 == 0:
+                return (c2 * k1, c2 * c1)
+        raise Unrec()
+
+    NEG = {">": "<=", ">=": "<", "<": ">=", "<=": ">"}
+    FLIP = {">": "<", ">=": "<=", "<": ">", "<=": ">="}
+    OPS = {ast.Gt: ">", ast.GtE: ">=", ast.Lt: "<", ast.LtE: "<="}
+
+    def cond(t, env):
+        """test -> (op, thr) on the ORIGINAL p"""
+        if isinstance(t, ast.UnaryOp) and isinstance(t.op, ast.Not):
+            op, thr = cond(t.operand, env)
+            return NEG[op], thr
+        if not (isinstance(t, ast.Compare) and len(t.ops) == 1 and type(t.ops[0]) in OPS):
+            raise Unrec()
+        (k1, c1), (k2, c2) = lin(t.left, env), lin(t.comparators[0], env)
+        op = OPS[type(t.ops[0])]
+        k, c = k1 - k2, c2 - c1  # k*p op c
+        if k == 0:
+            raise Unrec()
+        if k < 0:
+            op = FLIP[op]
+        return op, c / k
+
+    def ret(e, env, conds):
+        if isinstance(e, ast.IfExp):
+            cd = cond(e.test, env)
+            ret(e.body, env, conds + [cd])
+            ret(e.orelse, env, conds + [(NEG[cd[0]], cd[1])])
+        else:
+            out.append((conds, lin(e, env)))
+
+    def run(stmts, env, conds):
+        """returns fall-through states [(env, conds)]"""
+        states = [(env, conds)]
+        for st in stmts:
+            nxt = []
+            for env, conds in states:
+                if isinstance(st, ast.Expr) and isinstance(st.value, ast.Constant):
+                    nxt.append((env, conds))
+                elif isinstance(st, ast.Return):
+                    if st.value is None:
+                        raise Unrec()
+                    ret(st.value, env, conds)
+                elif isinstance(st, ast.Assign) and len(st.targets) == 1 and isinstance(st.targets[0], ast.Name):
+                    e2 = dict(env)
+                    if isinstance(st.value, ast.IfExp):
+                        cd = cond(st.value.test, env)
+                        e3 = dict(env)
+                        e2[st.targets[0].id] = lin(st.value.body, env)
+                        e3[st.targets[0].id] = lin(st.value.orelse, env)
+                        nxt.append((e2, conds + [cd]))
+                        nxt.append((e3, conds + [(NEG[cd[0]], cd[1])]))
+                    else:
+                        e2[st.targets[0].id] = lin(st.value, env)
+                        nxt.append((e2, conds))
+                elif isinstance(st, ast.If):
+                    cd = cond(st.test, env)
+                    nxt += run(st.body, env, conds + [cd])
+                    nxt += run(st.orelse, env, conds + [(NEG[cd[0]], cd[1])])
+                else:
+                    raise Unrec()
+            states = nxt
+        return states
+
+    try:
+        left = run(fi.node.body, {p: (1.0, 0.0)}, [])
+    except Unrec:
+        return None
+    if left:
+        return None  # a path falls off the end (returns None)
+    return out
+
+
 def check_acute(ctx, res) -> bool:
     fi = ctx.repo.fn("acute", "calc.acute")
-    g = ctx.cfg(fi)
-    p = fi.params[0]
-    conds = g.conds()
     ok = False
     why = "unrecognised shape"
-    if len(conds) == 1 and isinstance(conds[0].ast, ast.Compare) and len(conds[0].ast.ops) == 1:
-        c = conds[0].ast
-        thr = const_num(c.comparators[0])
-        if txt(c.left) == p and isinstance(c.ops[0], (ast.Gt, ast.GtE)) and thr is not None:
-            # true branch: p = K - p
-            asg = [n for n in walk_local(fi.node) if isinstance(n, ast.Assign) and txt(n.targets[0]) == p]
-            rets = [n for n in walk_local(fi.node) if isinstance(n, ast.Return)]
-            if len(asg) == 1 and isinstance(asg[0].value, ast.BinOp) and isinstance(asg[0].value.op, ast.Sub) \
-                    and txt(asg[0].value.right) == p and all(txt(r.value) == p for r in rets):
-                K = const_num(asg[0].value.left)
-                if K is not None:
-                    ok = abs(thr - PI / 2) < 1e-12 and abs(K - PI) < 1e-12
-                    why = "folds at %.6f with pi-complement %.6f" % (thr, K)
+    paths = _acute_paths(fi)
+    if paths is not None:
+        # feasible paths: a single threshold test (a path with two contradictory tests is dropped)
+        def feasible(conds):
+            lo, hi = -1e18, 1e18
+            for op, thr in conds:
+                if op in (">", ">="):
+                    lo = max(lo, thr)
+                else:
+                    hi = min(hi, thr)
+            return lo <= hi
+        paths = [pp for pp in paths if feasible(pp[0])]
+        up = [pp for pp in paths if pp[0] and all(op in (">", ">=") for op, _ in pp[0])]
+        dn = [pp for pp in paths if pp[0] and all(op in ("<", "<=") for op, _ in pp[0])]
+        if len(paths) == 2 and len(up) == 1 and len(dn) == 1:
+            thr_u = max(t for _, t in up[0][0])
+            thr_d = min(t for _, t in dn[0][0])
+            (ku, cu), (kd, cd_) = up[0][1], dn[0][1]
+            ok = abs(thr_u - PI / 2) < 1e-12 and abs(thr_d - PI / 2) < 1e-12 and abs(ku + 1) < 1e-12 and abs(cu - PI) < 1e-12 \
+                and abs(kd - 1) < 1e-12 and abs(cd_) < 1e-12
+            why = "above %.6f returns %g*rad + %.6f, below %.6f returns %g*rad + %.6f" % (thr_u, ku, cu, thr_d, kd, cd_)
+        else:
+            why = "returns %s" % [(c, v) for c, v in paths][:4]
+            if not paths:
+                why = "unrecognised shape"
     res.ob("R11.2", fi.where(), "acute()", ok, why)
     if not ok:
         if why == "unrecognised shape":
@@ -235,17 +346,8 @@ def r112_r113_angle(ctx, res, fi, direct):
 
 
 def _resolve_local(fi, e):
-    from ..astutil import assigned_names
-    asg = assigned_names(fi.node)
-
-    class R(ast.NodeTransformer):
-        def visit_Name(self, n):
-            d = asg.get(n.id, [])
-            if n.id not in fi.params and len(d) == 1 and isinstance(d[0], ast.Assign):
-                return d[0].value
-            return n
-    import copy
-    return R().visit(copy.deepcopy(e))
+    from ..astutil import expand_locals
+    return expand_locals(fi.node, e, fi.params)
 
 
 def r115(ctx, res):
